@@ -1,7 +1,281 @@
-//! C03 — stub (monitor not built yet)
-use crate::run::{Ctx, Report, Stats};
-pub fn run(_ctx: &Ctx) -> Report {
-    let mut r = Report::new(Stats::default(), "not built");
-    r.inconclusive.push("monitor-not-built".into());
-    r
+//! C03 — dense matrix algebra/editing follow their definitions for every shape and history.
+use crate::fl::U;
+use crate::model::{vec_to_ohsl, DM};
+use crate::mon::common::*;
+use crate::rat::Rat;
+use crate::rng::Rng;
+use crate::run::{catch, par_run, Ctx, Outcome, Report, Stats};
+use ohsl::{Matrix, Vector};
+
+const TAG: u64 = 0xC03;
+type M = Matrix<Rat>;
+type D = DM<Rat>;
+
+pub fn rval(rng: &mut Rng) -> Rat {
+    if rng.chance(0.15) { Rat::new(rng.int(-9, 9) as i128, rng.int(1, 4) as i128) } else { Rat::int(rng.int(-9, 9)) }
+}
+pub fn rnz(rng: &mut Rng) -> Rat { let v = rval(rng); if v.is_zero() { Rat::int(3) } else { v } }
+pub fn rand_dm(rng: &mut Rng, r: usize, c: usize) -> D { DM::from_fn(r, c, |_, _| rval(rng)) }
+pub fn rand_vec(rng: &mut Rng, n: usize) -> Vec<Rat> { (0..n).map(|_| rval(rng)).collect() }
+
+/// compare a returned matrix with the model (reads guarded: inconsistent storage must not kill the harness)
+fn same(m: &M, d: &D) -> bool {
+    matches!(catch(|| d.eq_ohsl(m) && m.numel() == d.r * d.c && m.verif_storage_len() == d.r * d.c), Outcome::Ok(true))
+}
+fn show_m(m: &M) -> String {
+    match catch(|| DM::from_ohsl(m).show()) { Outcome::Ok(s) => format!("{} (storage len {})", s, m.verif_storage_len()), _ => format!("<unreadable {}x{} storage len {}>", m.rows(), m.cols(), m.verif_storage_len()) }
+}
+
+fn expect_mat(st: &mut Stats, op: &str, out: Outcome<M>, want: &D, ctxd: &dyn Fn() -> String) {
+    st.eval();
+    match out {
+        Outcome::Overflow => st.count("skipped:rat-overflow"),
+        Outcome::Ok(m) => if !same(&m, want) { st.violation(&format!("C03:{}:wrong-result", op), format!("{} returned {} expected {}; {}", op, show_m(&m), want.show(), ctxd())); },
+        other => st.violation(&format!("C03:{}:refused-conformable", op), format!("{} {} on conformable operands, expected {}; {}", op, other.describe(), want.show(), ctxd())),
+    }
+}
+fn expect_vec(st: &mut Stats, op: &str, out: Outcome<Vector<Rat>>, want: &[Rat], ctxd: &dyn Fn() -> String) {
+    st.eval();
+    match out {
+        Outcome::Overflow => st.count("skipped:rat-overflow"),
+        Outcome::Ok(v) => if v.vec.as_slice() != want { st.violation(&format!("C03:{}:wrong-result", op), format!("{} returned {:?} expected {:?}; {}", op, v.vec, want, ctxd())); },
+        other => st.violation(&format!("C03:{}:refused-conformable", op), format!("{} {} on conformable operands, expected {:?}; {}", op, other.describe(), want, ctxd())),
+    }
+}
+/// in-place operation: run, then compare the receiver with the model
+fn expect_inplace(st: &mut Stats, op: &str, m: &mut M, f: impl FnOnce(&mut M), want: &D, ctxd: &dyn Fn() -> String) -> bool {
+    st.eval();
+    match catch(|| f(m)) {
+        Outcome::Overflow => { st.count("skipped:rat-overflow"); false }
+        Outcome::Ok(()) => { if !same(m, want) { st.violation(&format!("C03:{}:wrong-result", op), format!("after {} matrix is {} expected {}; {}", op, show_m(m), want.show(), ctxd())); false } else { true } }
+        other => { st.violation(&format!("C03:{}:refused-conformable", op), format!("{} {} on valid arguments, expected {}; {}", op, other.describe(), want.show(), ctxd())); false }
+    }
+}
+
+fn products(st: &mut Stats, rng: &mut Rng, r: usize, k: usize, c: usize) {
+    for _ in 0..3 {
+        st.next_case();
+        let a = rand_dm(rng, r, k);
+        let b = rand_dm(rng, k, c);
+        let v = rand_vec(rng, k);
+        let d = || format!("A={} B={} v={:?}", a.show(), b.show(), v);
+        let want = a.mul(&b);
+        let (am, bm) = (a.to_ohsl(), b.to_ohsl());
+        expect_mat(st, "mul(&M,&M)", catch(|| &am * &bm), &want, &d);
+        expect_mat(st, "mul(M,M)", catch(|| am.clone() * bm.clone()), &want, &d);
+        if !same(&am, &a) || !same(&bm, &b) { st.violation("C03:mul(&M,&M):operand-changed", d()); }
+        let wv = a.mulvec(&v);
+        let vv = vec_to_ohsl(&v);
+        expect_vec(st, "multiply(&v)", catch(|| am.multiply(&vv)), &wv, &d);
+        expect_vec(st, "mul(&M,&v)", catch(|| &am * &vv), &wv, &d);
+        expect_vec(st, "mul(M,v)", catch(|| am.clone() * vv.clone()), &wv, &d);
+        // (A*B)^T == B^T * A^T through the library
+        if let (Outcome::Ok(p), Outcome::Ok(q)) = (catch(|| (&am * &bm).transpose()), catch(|| &bm.transpose() * &am.transpose())) {
+            st.eval();
+            if !matches!(catch(|| p == q), Outcome::Ok(true)) { st.violation("C03:transpose-product-identity", d()); }
+        }
+        st.count(&format!("product-shapes:{}x{}x{}", r, k, c));
+        st.nontrivial(hmix(hmix(hash_str("prod"), (r * 100 + k * 10 + c) as u64), rng.u64()));
+        st.sample(|| d());
+    }
+}
+
+fn shape_ops(st: &mut Stats, rng: &mut Rng, r: usize, c: usize) {
+    for _ in 0..3 {
+        st.next_case();
+        let a = rand_dm(rng, r, c);
+        let b = rand_dm(rng, r, c);
+        let s = rnz(rng);
+        let am = a.to_ohsl();
+        let bm = b.to_ohsl();
+        let d = || format!("A={} B={} s={:?}", a.show(), b.show(), s);
+        let map = |f: &dyn Fn(usize, usize) -> Rat| DM::from_fn(r, c, |i, j| f(i, j));
+        expect_mat(st, "neg(&M)", catch(|| -&am), &map(&|i, j| -a.a[i][j]), &d);
+        expect_mat(st, "neg(M)", catch(|| -am.clone()), &map(&|i, j| -a.a[i][j]), &d);
+        expect_mat(st, "add(&M,&M)", catch(|| &am + &bm), &map(&|i, j| a.a[i][j] + b.a[i][j]), &d);
+        expect_mat(st, "add(M,M)", catch(|| am.clone() + bm.clone()), &map(&|i, j| a.a[i][j] + b.a[i][j]), &d);
+        expect_mat(st, "sub(&M,&M)", catch(|| &am - &bm), &map(&|i, j| a.a[i][j] - b.a[i][j]), &d);
+        expect_mat(st, "sub(M,M)", catch(|| am.clone() - bm.clone()), &map(&|i, j| a.a[i][j] - b.a[i][j]), &d);
+        expect_mat(st, "mul(&M,s)", catch(|| &am * s), &map(&|i, j| a.a[i][j] * s), &d);
+        expect_mat(st, "mul(M,s)", catch(|| am.clone() * s), &map(&|i, j| a.a[i][j] * s), &d);
+        expect_mat(st, "div(&M,s)", catch(|| &am / s), &map(&|i, j| a.a[i][j] / s), &d);
+        expect_mat(st, "div(M,s)", catch(|| am.clone() / s), &map(&|i, j| a.a[i][j] / s), &d);
+        let mut t = am.clone(); expect_inplace(st, "add_assign(&M)", &mut t, |m| *m += &bm, &map(&|i, j| a.a[i][j] + b.a[i][j]), &d);
+        let mut t = am.clone(); expect_inplace(st, "add_assign(M)", &mut t, |m| *m += bm.clone(), &map(&|i, j| a.a[i][j] + b.a[i][j]), &d);
+        let mut t = am.clone(); expect_inplace(st, "sub_assign(&M)", &mut t, |m| *m -= &bm, &map(&|i, j| a.a[i][j] - b.a[i][j]), &d);
+        let mut t = am.clone(); expect_inplace(st, "sub_assign(M)", &mut t, |m| *m -= bm.clone(), &map(&|i, j| a.a[i][j] - b.a[i][j]), &d);
+        let mut t = am.clone(); expect_inplace(st, "mul_assign(s)", &mut t, |m| *m *= s, &map(&|i, j| a.a[i][j] * s), &d);
+        let mut t = am.clone(); expect_inplace(st, "div_assign(s)", &mut t, |m| *m /= s, &map(&|i, j| a.a[i][j] / s), &d);
+        let mut t = am.clone(); expect_inplace(st, "add_assign(s)", &mut t, |m| *m += s, &map(&|i, j| a.a[i][j] + s), &d);
+        let mut t = am.clone(); expect_inplace(st, "sub_assign(s)", &mut t, |m| *m -= s, &map(&|i, j| a.a[i][j] - s), &d);
+        expect_mat(st, "transpose", catch(|| am.transpose()), &a.transpose(), &d);
+        let mut t = am.clone(); expect_inplace(st, "transpose_in_place", &mut t, |m| m.transpose_in_place(), &a.transpose(), &d);
+        expect_mat(st, "clone", catch(|| am.clone()), &a, &d);
+        expect_mat(st, "new", catch(|| M::new(r, c, s)), &DM::new(r, c, s), &d);
+        if r == c { expect_mat(st, "eye", catch(|| M::eye(r)), &DM::eye(r), &d); }
+        let mut t = am.clone(); expect_inplace(st, "clear", &mut t, |m| m.clear(), &DM::new(0, 0, Rat::ZERO), &d);
+        let mut t = am.clone(); expect_inplace(st, "fill", &mut t, |m| m.fill(s), &DM::new(r, c, s), &d);
+        let mut t = am.clone(); expect_inplace(st, "fill_diag", &mut t, |m| m.fill_diag(s), &map(&|i, j| if i == j { s } else { a.a[i][j] }), &d);
+        let (lo, di, up) = (rval(rng), rval(rng), rval(rng));
+        let mut t = am.clone(); expect_inplace(st, "fill_tridiag", &mut t, |m| m.fill_tridiag(lo, di, up), &map(&|i, j| if i == j { di } else if i == j + 1 { lo } else if i + 1 == j { up } else { a.a[i][j] }), &d);
+        for off in -(r as isize) - 1..=(c as isize) + 1 {
+            let mut t = am.clone();
+            expect_inplace(st, "fill_band", &mut t, |m| m.fill_band(off, s), &map(&|i, j| if j as isize - i as isize == off { s } else { a.a[i][j] }), &|| format!("offset={} {}", off, d()));
+        }
+        for i in 0..r {
+            expect_vec(st, "get_row", catch(|| am.get_row(i)), &a.a[i], &|| format!("row={} {}", i, d()));
+            let v = rand_vec(rng, c);
+            let mut t = am.clone(); expect_inplace(st, "set_row", &mut t, |m| m.set_row(i, vec_to_ohsl(&v)), &map(&|p, q| if p == i { v[q] } else { a.a[p][q] }), &|| format!("row={} v={:?} {}", i, v, d()));
+            let mut t = am.clone(); expect_inplace(st, "fill_row", &mut t, |m| m.fill_row(i, s), &map(&|p, q| if p == i { s } else { a.a[p][q] }), &|| format!("row={} {}", i, d()));
+            let mut t = am.clone();
+            let mut w = a.clone(); w.a.remove(i); w.r -= 1;
+            expect_inplace(st, "delete_row", &mut t, |m| m.delete_row(i), &w, &|| format!("row={} {}", i, d()));
+            for i2 in 0..r {
+                let mut t = am.clone(); let mut w = a.clone(); w.a.swap(i, i2);
+                expect_inplace(st, "swap_rows", &mut t, |m| m.swap_rows(i, i2), &w, &|| format!("rows=({},{}) {}", i, i2, d()));
+            }
+        }
+        for j in 0..c {
+            let col: Vec<Rat> = (0..r).map(|i| a.a[i][j]).collect();
+            expect_vec(st, "get_col", catch(|| am.get_col(j)), &col, &|| format!("col={} {}", j, d()));
+            let v = rand_vec(rng, r);
+            let mut t = am.clone(); expect_inplace(st, "set_col", &mut t, |m| m.set_col(j, vec_to_ohsl(&v)), &map(&|p, q| if q == j { v[p] } else { a.a[p][q] }), &|| format!("col={} v={:?} {}", j, v, d()));
+            let mut t = am.clone(); expect_inplace(st, "fill_col", &mut t, |m| m.fill_col(j, s), &map(&|p, q| if q == j { s } else { a.a[p][q] }), &|| format!("col={} {}", j, d()));
+        }
+        if r > 0 && c > 0 {
+            let (i1, j1, i2, j2) = (rng.usize(0, r - 1), rng.usize(0, c - 1), rng.usize(0, r - 1), rng.usize(0, c - 1));
+            let mut t = am.clone(); let mut w = a.clone(); let tmp = w.a[i1][j1]; w.a[i1][j1] = w.a[i2][j2]; w.a[i2][j2] = tmp;
+            expect_inplace(st, "swap_elem", &mut t, |m| m.swap_elem(i1, j1, i2, j2), &w, &|| format!("({},{})<->({},{}) {}", i1, j1, i2, j2, d()));
+        }
+        st.count(&format!("shape:{}x{}", r, c));
+        st.nontrivial(hmix(hmix(hash_str("shape"), (r * 10 + c) as u64), rng.u64()));
+    }
+    // resize to every target shape
+    st.next_case();
+    let a = rand_dm(rng, r, c);
+    for r2 in 0..=8usize { for c2 in 0..=8usize {
+        let mut t = a.to_ohsl();
+        let w = DM::from_fn(r2, c2, |i, j| if i < r && j < c { a.a[i][j] } else { Rat::ZERO });
+        expect_inplace(st, "resize", &mut t, |m| m.resize(r2, c2), &w, &|| format!("to {}x{} A={}", r2, c2, a.show()));
+    } }
+}
+
+fn history(st: &mut Stats, rng: &mut Rng) {
+    st.next_case();
+    let (r0, c0) = (rng.usize(0, 6), rng.usize(0, 6));
+    let mut d = rand_dm(rng, r0, c0);
+    let mut m = d.to_ohsl();
+    let steps = rng.usize(5, 40);
+    let mut log: Vec<String> = vec![format!("start {}", d.show())];
+    let mut h = hash_str("hist");
+    for _ in 0..steps {
+        let (r, c) = (d.r, d.c);
+        let op = rng.below(26);
+        h = hmix(h, op);
+        let s = rnz(rng);
+        let before = d.clone();
+        let name: String;
+        let ok: bool;
+        macro_rules! inplace { ($n:expr, $f:expr) => {{ name = $n; let l = log.clone(); let nm = name.clone(); ok = expect_inplace(st, &format!("history:{}", nm.split('(').next().unwrap()), &mut m, $f, &d, &|| format!("step {} after history {:?}", nm, l)); }}; }
+        match op {
+            0 if r > 0 => { let i = rng.usize(0, r - 1); let v = rand_vec(rng, c); d.a[i] = v.clone(); inplace!(format!("set_row({},{:?})", i, v), |m: &mut M| m.set_row(i, vec_to_ohsl(&v))); }
+            1 if c > 0 => { let j = rng.usize(0, c - 1); let v = rand_vec(rng, r); for i in 0..r { d.a[i][j] = v[i]; } inplace!(format!("set_col({},{:?})", j, v), |m: &mut M| m.set_col(j, vec_to_ohsl(&v))); }
+            2 if r > 0 => { let (i, k) = (rng.usize(0, r - 1), rng.usize(0, r - 1)); d.a.swap(i, k); inplace!(format!("swap_rows({},{})", i, k), |m: &mut M| m.swap_rows(i, k)); }
+            3 if r > 0 => { let i = rng.usize(0, r - 1); d.a.remove(i); d.r -= 1; inplace!(format!("delete_row({})", i), |m: &mut M| m.delete_row(i)); }
+            4 => { for row in d.a.iter_mut() { for v in row.iter_mut() { *v = s; } } inplace!(format!("fill({:?})", s), |m: &mut M| m.fill(s)); }
+            5 => { for i in 0..r.min(c) { d.a[i][i] = s; } inplace!(format!("fill_diag({:?})", s), |m: &mut M| m.fill_diag(s)); }
+            6 => { let off = rng.int(-(r as i64) - 1, c as i64 + 1) as isize; for i in 0..r { for j in 0..c { if j as isize - i as isize == off { d.a[i][j] = s; } } } inplace!(format!("fill_band({},{:?})", off, s), |m: &mut M| m.fill_band(off, s)); }
+            7 => { let (lo, up) = (rval(rng), rval(rng)); for i in 0..r { for j in 0..c { if i == j { d.a[i][j] = s; } else if i == j + 1 { d.a[i][j] = lo; } else if i + 1 == j { d.a[i][j] = up; } } } inplace!(format!("fill_tridiag({:?},{:?},{:?})", lo, s, up), |m: &mut M| m.fill_tridiag(lo, s, up)); }
+            8 if r > 0 => { let i = rng.usize(0, r - 1); for j in 0..c { d.a[i][j] = s; } inplace!(format!("fill_row({},{:?})", i, s), |m: &mut M| m.fill_row(i, s)); }
+            9 if c > 0 => { let j = rng.usize(0, c - 1); for i in 0..r { d.a[i][j] = s; } inplace!(format!("fill_col({},{:?})", j, s), |m: &mut M| m.fill_col(j, s)); }
+            10 => { let (r2, c2) = (rng.usize(0, 7), rng.usize(0, 7)); d = DM::from_fn(r2, c2, |i, j| if i < r && j < c { before.a[i][j] } else { Rat::ZERO }); inplace!(format!("resize({},{})", r2, c2), |m: &mut M| m.resize(r2, c2)); }
+            11 => { d = before.transpose(); inplace!("transpose_in_place()".to_string(), |m: &mut M| m.transpose_in_place()); }
+            12 | 13 => { let o = rand_dm(rng, r, c); let om = o.to_ohsl(); for i in 0..r { for j in 0..c { d.a[i][j] = if op == 12 { d.a[i][j] + o.a[i][j] } else { d.a[i][j] - o.a[i][j] }; } }
+                if op == 12 { inplace!(format!("add_assign({})", o.show()), |m: &mut M| *m += &om); } else { inplace!(format!("sub_assign({})", o.show()), |m: &mut M| *m -= &om); } }
+            14 => { let sm = Rat::int(rng.int(-2, 2)); for row in d.a.iter_mut() { for v in row.iter_mut() { *v = *v * sm; } } inplace!(format!("mul_assign({:?})", sm), |m: &mut M| *m *= sm); }
+            15 => { let sd = Rat::int(if rng.bool() { 2 } else { -1 }); for row in d.a.iter_mut() { for v in row.iter_mut() { *v = *v / sd; } } inplace!(format!("div_assign({:?})", sd), |m: &mut M| *m /= sd); }
+            16 => { for row in d.a.iter_mut() { for v in row.iter_mut() { *v = *v + s; } } inplace!(format!("add_assign_scalar({:?})", s), |m: &mut M| *m += s); }
+            17 => { for row in d.a.iter_mut() { for v in row.iter_mut() { *v = *v - s; } } inplace!(format!("sub_assign_scalar({:?})", s), |m: &mut M| *m -= s); }
+            18 if r > 0 && c > 0 => { let (i, j) = (rng.usize(0, r - 1), rng.usize(0, c - 1)); d.a[i][j] = s; inplace!(format!("index_write(({},{}),{:?})", i, j, s), |m: &mut M| m[(i, j)] = s); }
+            19 if r > 0 && c > 0 => { let (i1, j1, i2, j2) = (rng.usize(0, r - 1), rng.usize(0, c - 1), rng.usize(0, r - 1), rng.usize(0, c - 1)); let t = d.a[i1][j1]; d.a[i1][j1] = d.a[i2][j2]; d.a[i2][j2] = t; inplace!(format!("swap_elem({},{},{},{})", i1, j1, i2, j2), |m: &mut M| m.swap_elem(i1, j1, i2, j2)); }
+            20 => { let c2 = rng.usize(0, 5); let mut o = DM::from_fn(c, c2, |_, _| Rat::int(rng.int(-2, 2))); if rng.bool() && c == c2 { o = DM::eye(c); }
+                match catch(|| before.mul(&o)) { Outcome::Ok(p) => { d = p; } _ => { st.count("skipped:rat-overflow"); break; } }
+                let om = o.to_ohsl(); inplace!(format!("assign_product({})", o.show()), |m: &mut M| { let p = &*m * &om; *m = p; }); }
+            21 => { d = before.transpose(); inplace!("assign_transpose()".to_string(), |m: &mut M| { let t = m.transpose(); *m = t; }); }
+            22 => { if rng.chance(0.2) { d = DM::new(0, 0, Rat::ZERO); inplace!("clear()".to_string(), |m: &mut M| m.clear()); } else { continue; } }
+            23 => { for row in d.a.iter_mut() { for v in row.iter_mut() { *v = -*v; } } inplace!("assign_neg()".to_string(), |m: &mut M| { let t = -&*m; *m = t; }); }
+            24 if r > 0 => { let i = rng.usize(0, r - 1); let want = d.a[i].clone(); expect_vec(st, "history:get_row", catch(|| m.get_row(i)), &want, &|| format!("get_row({}) after {:?}", i, log)); continue; }
+            25 if c > 0 => { let j = rng.usize(0, c - 1); let want: Vec<Rat> = (0..r).map(|i| d.a[i][j]).collect(); expect_vec(st, "history:get_col", catch(|| m.get_col(j)), &want, &|| format!("get_col({}) after {:?}", j, log)); continue; }
+            _ => continue,
+        }
+        log.push(name);
+        st.count("history-steps");
+        st.set_insert("history-shapes", format!("{}x{}", d.r, d.c));
+        if !ok { break; }
+    }
+    st.count("histories");
+    st.nontrivial(hmix(h, rng.u64()));
+    if log.len() > 8 { st.sample(|| format!("history {:?}", log)); }
+}
+
+fn norms(st: &mut Stats, rng: &mut Rng) {
+    st.next_case();
+    let (r, c) = (rng.usize(0, 8), rng.usize(0, 8));
+    let a: Vec<Vec<f64>> = (0..r).map(|_| (0..c).map(|_| rng.int(-20, 20) as f64 * if rng.chance(0.3) { 0.5 } else { 1.0 }).collect()).collect();
+    let m = { let mut m = Matrix::<f64>::new(r, c, 0.0); for i in 0..r { for j in 0..c { m[(i, j)] = a[i][j]; } } m };
+    let d = || format!("A={:?} ({}x{})", a, r, c);
+    let col_sums: Vec<f64> = (0..c).map(|j| (0..r).map(|i| a[i][j].abs()).sum()).collect();
+    let row_sums: Vec<f64> = (0..r).map(|i| (0..c).map(|j| a[i][j].abs()).sum()).collect();
+    let mx = |v: &[f64]| v.iter().fold(0.0f64, |p, q| p.max(*q));
+    let exact = |st: &mut Stats, name: &str, got: Outcome<f64>, want: f64| {
+        st.eval();
+        match got { Outcome::Ok(g) => if g != want { st.violation(&format!("C03:{}:wrong-value", name), format!("{} = {:e} expected {:e}; {}", name, g, want, d())); },
+                    o => st.violation(&format!("C03:{}:panic", name), format!("{} {}; {}", name, o.describe(), d())) }
+    };
+    exact(st, "norm_1", catch(|| m.norm_1()), mx(&col_sums));
+    exact(st, "norm_inf", catch(|| m.norm_inf()), mx(&row_sums));
+    exact(st, "norm_max", catch(|| m.norm_max()), a.iter().flatten().fold(0.0f64, |p, q| p.max(q.abs())));
+    let tol = 16.0 * (r * c + 2) as f64 * U;
+    for p in [1.0, 2.0, 3.0, 2.5, 8.0] {
+        let s: f64 = a.iter().flatten().map(|v| v.abs().powf(p)).sum();
+        let want = if p == 2.0 { a.iter().flatten().map(|v| v * v).sum::<f64>().sqrt() } else { s.powf(1.0 / p) };
+        st.eval();
+        match catch(|| m.norm_p(p)) {
+            Outcome::Ok(g) => { let e = if want == 0.0 { g.abs() } else { ((g - want) / want).abs() }; st.max("norm_p_relerr_over_tol", e / tol); if !(e <= tol) { st.violation("C03:norm_p:wrong-value", format!("norm_p({}) = {:e} expected {:e}; {}", p, g, want, d())); } }
+            o => st.violation("C03:norm_p:panic", format!("norm_p({}) {}; {}", p, o.describe(), d())),
+        }
+    }
+    let want = a.iter().flatten().map(|v| v * v).sum::<f64>().sqrt();
+    st.eval();
+    match catch(|| m.norm_frob()) { Outcome::Ok(g) => { let e = if want == 0.0 { g.abs() } else { ((g - want) / want).abs() }; if !(e <= tol) { st.violation("C03:norm_frob:wrong-value", format!("norm_frob = {:e} expected {:e}; {}", g, want, d())); } } o => st.violation("C03:norm_frob:panic", format!("{}; {}", o.describe(), d())) }
+    // f64 * Matrix<f64>
+    let s = rng.int(-8, 8) as f64 * 0.5;
+    st.eval();
+    match catch(|| s * m.clone()) {
+        Outcome::Ok(p) => { let okk = p.rows() == r && p.cols() == c && (0..r).all(|i| (0..c).all(|j| p[(i, j)] == a[i][j] * s)); if !okk { st.violation("C03:f64*M:wrong-result", format!("s={} {}", s, d())); } }
+        o => st.violation("C03:f64*M:panic", format!("{}; {}", o.describe(), d())),
+    }
+    st.count("norm-cases");
+    if r * c > 1 { st.nontrivial(hmix(hash_str("norm"), a.iter().flatten().fold(0u64, |h, v| hmix(h, v.to_bits())))); }
+}
+
+pub fn run(ctx: &Ctx) -> Report {
+    let nprod = 9u64 * 9 * 9;
+    let nshape = 81u64;
+    let nhist = ctx.vol(3000, 80_000);
+    let nnorm = ctx.vol(300, 5000);
+    let reps = if ctx.quick() { 5 } else { 40 };
+    let stats = par_run(ctx, TAG, nprod + nshape + nhist + nnorm, |u, rng, st| {
+        if u < nprod { let (r, k, c) = ((u / 81) as usize, ((u / 9) % 9) as usize, (u % 9) as usize); for _ in 0..reps { products(st, rng, r, k, c); } }
+        else if u < nprod + nshape { let v = u - nprod; for _ in 0..reps { shape_ops(st, rng, (v / 9) as usize, (v % 9) as usize); } }
+        else if u < nprod + nshape + nhist { for _ in 0..10 { history(st, rng); } }
+        else { for _ in 0..40 { norms(st, rng); } }
+    });
+    let mut rep = Report::new(stats,
+        "exhaustive shapes: A(r x k)*B(k x c) and A*v for all (r,k,c) in [0,8]^3; all unary/binary operators, compound assignments, transpose (both), eye, clone, new, clear, fills (every band offset -r-1..c+1), get/set/fill row/col for every index, swap_rows every pair, delete_row every row, resize to every (r',c') in [0,8]^2 for all (r,c) in [0,8]^2, random Rat entries (15 draws quick, 120 thorough); random histories (<=40 steps of 26 editing operations) in lock step with a Vec<Vec<Rat>> model comparing shape, every entry, numel and private storage length after every step; f64 norms on integer/half-integer data. Every case is non-trivial (a judged operation on generic data); distinct = distinct (shape, draw) hashes");
+    rep.assumptions = vec!["only conformable/in-range calls are made here (mismatches belong to C20)".into(), "norm_p/norm_frob relative tolerance 16*(r*c+2)*u; norm_1/inf/max exact on this data".into()];
+    rep.min_nontrivial = 1000;
+    rep.exhaustive = false;
+    rep.extra.set("exhaustive_parts", crate::json::J::Arr(vec![crate::json::J::s("product shapes (r,k,c) in [0,8]^3"), crate::json::J::s("operator/editing shapes (r,c) in [0,8]^2 with every index/offset/target shape")]));
+    rep
 }
